@@ -84,15 +84,27 @@ type world struct {
 	cat     *Catalog
 	top     ociregistry.Interface
 	snapOf  ociregistry.Interface // registry whose state the snap events project (nil: none)
+	snapAll []ociregistry.Interface
+	prefix  string // repository name prefix underneath a sub() view
 	close   func()
 	writers map[string]ociregistry.BlobWriter
 	ids     map[string]string
 	out     *json.Encoder
 	nEvents int
+	rec     *recorder // backend call log, if the stack has one
+	quiesce func()
+	opNo    int64
+	setOp   func(int64)
 }
 
 func (w *world) emit(e ev) {
 	w.nEvents++
+	if w.quiesce != nil {
+		w.quiesce()
+	}
+	if w.rec != nil && e["op"] != "snap" && e["op"] != "reset" {
+		e["backend"] = w.rec.take(w.opNo)
+	}
 	if err := w.out.Encode(e); err != nil {
 		panic(err)
 	}
@@ -147,6 +159,10 @@ func (w *world) readFields(e ev, r ociregistry.BlobReader, wantSlice bool) {
 // action, so the trace is rejected there).
 func (w *world) step(ctx context.Context, op Op) {
 	e := opEvent(op)
+	w.opNo++
+	if w.setOp != nil {
+		w.setOp(w.opNo)
+	}
 	defer func() {
 		if p := recover(); p != nil {
 			e["op"] = "panic"
@@ -357,14 +373,20 @@ func collect[T any](it ociregistry.Seq[T]) (items []T, calls int, err error) {
 // snap projects the complete state of a registry over the catalogue's universe, using
 // only the Interface.  Used on the in-memory registry underneath the stack.
 func (w *world) snap(ctx context.Context) {
-	reg := w.snapOf
-	if reg == nil {
-		return
+	for _, reg := range w.snapAll {
+		w.snap1(ctx, reg)
 	}
+}
+
+func (w *world) snap1(ctx context.Context, reg ociregistry.Interface) {
 	blobs := ev{}
 	mans := ev{}
 	tags := ev{}
-	for _, r := range w.cat.Repos {
+	for _, r0 := range w.cat.Repos {
+		r := r0
+		if w.prefix != "" {
+			r = w.prefix + "/" + r0
+		}
 		bl := []string{}
 		ml := ev{}
 		tl := ev{}
@@ -382,9 +404,9 @@ func (w *world) snap(ctx context.Context) {
 			}
 		}
 		sort.Strings(bl)
-		blobs[r] = bl
-		mans[r] = ml
-		tags[r] = tl
+		blobs[r0] = bl
+		mans[r0] = ml
+		tags[r0] = tl
 	}
 	w.emit(ev{"op": "snap", "blobs": blobs, "mans": mans, "tags": tags})
 }
